@@ -79,6 +79,14 @@ func ZZVerifC06Engine() {
 	res, err := e.VSearch("i0", qv, k, filter, text, 0, alpha, nil)
 	rt.Assert(err == nil, "search succeeds")
 	rt.Assert(len(res) <= k, "at most k results")
+	// when the index holds no text field at all the engine documents a fall-back of a text query to the
+	// vector-only path (with a warning); the containment clause applies once a live document carries the field
+	anyText := false
+	for _, id := range ids {
+		if model[id].live && model[id].text != "" {
+			anyText = true
+		}
+	}
 	seen := map[string]bool{}
 	for _, id := range res {
 		m := model[id]
@@ -91,7 +99,7 @@ func ZZVerifC06Engine() {
 		if filter != "" {
 			rt.Assert(m.cat == "A", "every returned id satisfies the metadata filter")
 		}
-		if mode == 2 {
+		if mode == 2 && anyText {
 			rt.Assert(strings.Contains(m.text, "apple"), "a text-only result contains the query term")
 		}
 	}
